@@ -37,6 +37,10 @@ type Session struct {
 	GapUs       int      `json:"gap_us,omitempty"`      // mode "pipe": pause after every third command (0 = none): lets more commands reach the handler
 	Controllers int      `json:"controllers,omitempty"` // mode "pipe": websocket controllers on /ws/api sending their commands without waiting
 	TmpDir      string   `json:"tmp_dir,omitempty"`     // created before and removed after the session: where rules with a "file" record to
+	Fifos       []string `json:"fifos,omitempty"`       // named pipes (no reader) created in TmpDir before the session
+	LogLevel    string   `json:"log_level,omitempty"`   // "" (panic, as in production) | "debug" | "trace": answers must be byte-identical
+	Headers     bool     `json:"headers,omitempty"`     // odd request headers on the websocket upgrades and HTTP requests
+	ViaStream   bool     `json:"via_stream,omitempty"`  // the host is started through vw.Stream() with VW_PORT / VW_API / VW_LOGLEVEL in the environment
 	Obs         []Obs    `json:"obs,omitempty"`
 	coqView     *Session // (parent, pipelined) the whole topic history as given to the model
 }
@@ -407,6 +411,13 @@ func genScenario(r *lib.Rng) []Item {
 // on its stream (so that its RelayOut holds a message it cannot deliver), a teardown of that rule, and then
 // further commands over the control topic and the HTTP API - each of which must still be answered
 func genFileScenario(r *lib.Rng, dir string, teardown int) []Item {
+	return genFileScenarioOn(r, dir+"/out.bin", teardown)
+}
+
+// genFileScenarioOn: the same with the recording file given (a regular file, or a named pipe without reader:
+// opening it blocks whoever opens it - on the host as it is that is the rule's own RelayOut goroutine only)
+func genFileScenarioOn(r *lib.Rng, file string, teardown int) []Item {
+	dir := file
 	cmd := func(s, fam string) Item {
 		return Item{Kind: "cmd", Msg: []byte(s), Text: fmt.Sprintf("%q", s), Family: fam}
 	}
@@ -415,7 +426,7 @@ func genFileScenario(r *lib.Rng, dir string, teardown int) []Item {
 		return `{"verb":"add","what":"destination","rule":{"id":"` + id + `","stream":"` + stream + `","destination":"ws://127.0.0.1:9/in/rec","file":` + jraw(file) + `}}`
 	}
 	items := []Item{
-		cmd(rule("f0", dir+"/out.bin"), "add/destination/rule-with-file"),
+		cmd(rule("f0", dir), "add/destination/rule-with-file"),
 		{Kind: "pub", Path: stream, Body: []byte("traffic while the destination is unreachable"), Family: "pub/" + stream},
 	}
 	switch teardown % 4 {
@@ -424,7 +435,7 @@ func genFileScenario(r *lib.Rng, dir string, teardown int) []Item {
 	case 1:
 		items = append(items, cmd(`{"verb":"delete","what":"destination","which":"all"}`, "delete/destination/which-all"))
 	case 2:
-		items = append(items, cmd(rule("f0", dir+"/out.bin"), "add/destination/rule-with-file-again"))
+		items = append(items, cmd(rule("f0", dir), "add/destination/rule-with-file-again"))
 	case 3:
 		items = append(items, Item{Kind: "http", Method: "DELETE", Path: "/api/destinations/f0", Family: "http/DELETE /api/destinations/{id}"})
 	}
@@ -501,15 +512,30 @@ func genSession(r *lib.Rng, nCmd, nHTTP int, mode string) Session {
 		scenarioAt = r.Intn(k)
 	}
 	fileAt := -1
+	fifo := false
 	if mode != "direct" && r.Chance(1, 3) {
 		fileAt = r.Intn(k)
 		s.TmpDir = newTmpDir()
+		if r.Chance(1, 2) {
+			fifo = true
+			s.Fifos = []string{"pipe.fifo"}
+		}
+	}
+	s.LogLevel = []string{"", "", "", "trace", "debug"}[r.Intn(5)]
+	s.Headers = r.Chance(1, 2)
+	if (mode == "topic" || mode == "ws") && r.Chance(1, 3) {
+		s.ViaStream = true
+		if s.API != "" && r.Chance(2, 3) {
+			s.API += "/" // a configured value with a trailing slash is used as it is, everywhere
+		}
 	}
 	for i := 0; i < k; i++ {
 		if i == scenarioAt {
 			s.Items = append(s.Items, genScenario(r)...)
 		}
-		if i == fileAt {
+		if i == fileAt && fifo {
+			s.Items = append(s.Items, genFileScenarioOn(r, s.TmpDir+"/pipe.fifo", r.Intn(4))...)
+		} else if i == fileAt {
 			s.Items = append(s.Items, genFileScenario(r, s.TmpDir, r.Intn(4))...)
 		}
 		if nHTTP > 0 && (r.Intn(k-i) < nHTTP) && mode != "direct" {
@@ -603,6 +629,36 @@ func corpus() []Session {
 			dir := newTmpDir()
 			out = append(out, Session{API: api, Mode: mode, TmpDir: dir, Items: genFileScenario(lib.NewRng(int64(100+td)), dir, td)})
 		}
+	}
+	// the recording file is a named pipe nobody reads yet (over the control topic and over HTTP)
+	for td := 0; td < 2; td++ {
+		dir := newTmpDir()
+		out = append(out, Session{API: api, Mode: "topic", TmpDir: dir, Fifos: []string{"pipe.fifo"}, LogLevel: []string{"", "trace"}[td],
+			Items: genFileScenarioOn(lib.NewRng(int64(200+td)), dir+"/pipe.fifo", td)})
+	}
+	{
+		dir := newTmpDir()
+		out = append(out, Session{API: api, Mode: "topic", TmpDir: dir, Fifos: []string{"pipe.fifo"}, Headers: true, Items: []Item{
+			{Kind: "http", Method: "POST", Path: "/api/destinations", CType: "application/json", Body: []byte(`{"id":"hf","stream":"video0","destination":"ws://127.0.0.1:9/in/hf","file":"` + dir + `/pipe.fifo"}`), Family: "http/POST /api/destinations/rule-with-fifo"},
+			cmd(`{"verb":"healthcheck"}`, "healthcheck/"),
+			{Kind: "http", Method: "GET", Path: "/api/destinations/all", Family: "http/GET /api/destinations/all"},
+			cmd(`{"verb":"delete","what":"destination","which":"hf"}`, "delete/destination"),
+			cmd(`{"verb":"list","what":"destination","which":"all"}`, "list/destination/which-all"),
+		}})
+	}
+	// hosts started the way `relay host` starts them (vw.Stream(), configuration from the environment), with a
+	// control destination that ends in a slash, at several log levels: delete-all must re-create exactly the rule
+	// the host started with
+	for i, lvl := range []string{"", "trace", "debug"} {
+		out = append(out, Session{API: api + "/", Mode: []string{"topic", "ws", "topic"}[i], ViaStream: true, LogLevel: lvl, Headers: i == 1, Items: []Item{
+			cmd(`{"verb":"list","what":"destination","which":"all"}`, "list/destination/which-all"),
+			cmd(`{"verb":"add","what":"destination","rule":{"id":"v0","stream":"video0","destination":"ws://127.0.0.1:9/in/v0"}}`, "add/destination"),
+			cmd(`{"verb":"delete","what":"destination","which":"all"}`, "delete/destination/which-all"),
+			cmd(`{"verb":"list","what":"destination","which":"all"}`, "list/destination/which-all"),
+			cmd(`{"verb":"delete","what":"destination","which":"deleteAll"}`, "delete/destination/which-deleteAll"),
+			cmd(`{"verb":"list","what":"destination","which":"apiRule"}`, "list/destination"),
+			{Kind: "http", Method: "GET", Path: "/api/destinations/all", Family: "http/GET /api/destinations/all"},
+		}})
 	}
 	// reserved words in other spellings: none of them may remove apiRule, whatever else they do
 	for _, mode := range []string{"topic", "direct"} {
